@@ -134,16 +134,20 @@ def sig_universe(op):
 LITS = {"int": 2, "float": 1.5, "string": "a", "bool": True, "date": datetime.date(2020, 1, 2), "datetime": datetime.datetime(2020, 1, 2, 3, 4, 5)}
 
 
-def mk_args(t, sig, variant=0):
+LITS_WHOLE = dict(LITS, float=2.0)  # a float literal with a whole-number value: still a float
+
+
+def mk_args(t, sig, variant=0, lits=None):
     """variant 1 takes the second sample column of each type first (other values: e.g. an Int column that exceeds the Float one in every row)"""
     args, used = [], {}
+    lits = lits or LITS
     for p in sig:
         fam = TU.family(p)
         if T.is_const(p):
             if fam == "nulltype":
                 args.append(None)
-            elif fam in LITS:
-                args.append(LITS[fam])
+            elif fam in lits:
+                args.append(lits[fam])
             else:
                 return None
         else:
@@ -190,8 +194,8 @@ def d3_run(carve):
                 continue
             if "list_agg" in carve and opname == "list_agg":
                 continue
-            for sig in sig_universe(op):
-                args = mk_args(t, sig)
+            for sig, lits in [(sg, ls) for sg in sig_universe(op) for ls in ((LITS, LITS_WHOLE) if any(T.is_const(x) and TU.family(x) == "float" for x in sg) else (LITS,))]:
+                args = mk_args(t, sig, lits=lits)
                 if args is None:
                     continue
                 try:
@@ -215,7 +219,7 @@ def d3_run(carve):
                     bad.append(f"{opname}{_fmt(sig)}: export raises {type(ex).__name__}: {str(ex)[:100]}")
                     continue
                 msg = check_type(static, out["r"].dtype)
-                if msg and "int_as_float" in carve and type(T.without_const(static)) is pdt.Float and Dtype.from_polars(out["r"].dtype).is_int() and any(TU.family(x) == "int" for x in sig):
+                if msg and "int_as_float" in carve and opname in ("floor", "ceil") and type(T.without_const(static)) is pdt.Float and Dtype.from_polars(out["r"].dtype).is_int() and any(TU.family(x) == "int" for x in sig):
                     continue
                 if msg:
                     bad.append(f"{opname}{_fmt(sig)}: {msg}")
